@@ -32,7 +32,7 @@ type Shape struct {
 	Want    []Msg  // fetch: the records encoded in Set
 	Got     []Msg  // fetch: records delivered by the batch
 	Deliver string // fetch: "-" | "prefix" | "notprefix"
-	Via     string // fetch: "" = ReadBatchWith + Batch.ReadMessage; "ReadMessage" = Conn.ReadMessage; "Read" = Conn.Read (one record each)
+	Via     string // fetch: "" = ReadBatchWith + Batch.ReadMessage; "ReadMessage" = Conn.ReadMessage; "Read" = Conn.Read (one record each); "ReadSmall" = Conn.Read into a 1-byte buffer
 	ReadN   int    // fetch: 0 = read the batch to its end; n > 0 = read at most n records, then Close; -1 = Close at once
 }
 
@@ -244,6 +244,18 @@ var Ops = []*Op{
 					if err == nil && len(sh.Want) > 0 {
 						m = kafka.Message{Offset: sh.Want[0].Offset, Key: []byte(sh.Want[0].Key), Value: buf[:n]}
 					}
+				} else if sh.Via == "ReadSmall" {
+					// a buffer shorter than the value: io.ErrShortBuffer, the Conn stays usable (and aligned)
+					buf := make([]byte, 1)
+					_, err = c.Read(buf)
+					sh.Deliver = "prefix"
+					switch {
+					case len(sh.Want) > 0 && len(sh.Want[0].Value) > 1 && errors.Is(err, io.ErrShortBuffer):
+						return "", io.ErrShortBuffer // Outcome: "shortbuf"
+					case len(sh.Want) > 0 && len(sh.Want[0].Value) > 1 && err == nil:
+						return "", errors.New("verif: a value longer than the buffer was read without io.ErrShortBuffer")
+					}
+					return "", err
 				} else {
 					m, err = c.ReadMessage(1 << 20)
 				}
@@ -445,6 +457,9 @@ func Outcome(err error) string {
 	}
 	if errors.Is(err, io.ErrNoProgress) {
 		return "fail:noprogress"
+	}
+	if err == io.ErrShortBuffer {
+		return "shortbuf" // only from the "ReadSmall" fetch variant, where it is the expected answer
 	}
 	return "fail"
 }
